@@ -444,6 +444,20 @@ class ExtraOps:
             else:
                 o = Slice(op["start"], op["stop"]) if (op["start"] or op["stop"] is not None) else None
             raw = tgt if o is None else UnaryOperationRelation(operation=o, target=tgt, columns=o.applied_columns(tgt))
+        elif kind in ("mat", "mark"):
+            # hand-assembled markers (C17: raw trees whose marker targets are not conformed)
+            tgt = self.build_raw(ent.parents[0], memo)
+            if tgt is None or not isinstance(tgt.engine, sql.Engine):
+                return None
+            if kind == "mark":
+                from .world import SimMarker
+
+                raw = SimMarker(target=tgt)
+            elif isinstance(tgt, (LeafRelation, Materialization)):
+                raw = tgt
+            else:
+                self.nrawmat = getattr(self, "nrawmat", 0) + 1
+                raw = Materialization(target=tgt, name=f"raw{self.nrawmat}_{op.get('name') or 'm'}")
         elif kind in ("chain", "join"):
             l = self.build_raw(ent.parents[0], memo)
             r = self.build_raw(ent.parents[1], memo)
@@ -471,6 +485,22 @@ class ExtraOps:
         if raw is None:
             return
         w = self.w
+        if needs_processing(raw):
+            # a raw tree with materializations: evaluate it once through a Processor (which attaches the payloads to
+            # the caller's own nodes), then conform the *same* tree: the second use must still find everything cached
+            try:
+                w.processor.process(raw)
+            except Exception as e:  # noqa
+                if w.fault.fired and __import__("relsim.execu", fromlist=["is_injected"]).is_injected(e, w.fault.fired):
+                    return
+                if "will not preserve row order" in str(e):
+                    return
+                self.violate("conform_exception", {"raw": str(raw)[:200], "phase": "process(raw)"}, entry=t, exc=e)
+                return
+            self.stats["raw_processed"] += 1
+            if needs_processing(raw):
+                return
+        cached = not needs_processing(raw)
         try:
             c1 = w.sql.conform(raw)
             c2 = w.sql.conform(c1)
@@ -480,6 +510,9 @@ class ExtraOps:
         self.stats["raw_conformed"] += 1
         if c2 is not c1:
             self.violate("conform_not_idempotent", {"raw": str(raw)[:200]}, entry=t)
+        if cached and needs_processing(c1):
+            self.violate("conform_lost_payload", {"raw": str(raw)[:200], "conformed": str(c1)[:200]}, entry=t)
+            return
         ent = Entry(c1, t.mv, op, [t])
         ent.taint = set(t.taint)
         self.check_select_coherence(ent)
